@@ -73,9 +73,15 @@ JudgeNext(e) ==
      ELSE
      LET wd == Weekday(e.zone, e.now)
          k == NextRunK(wd, LocalMin(e.zone, e.now), 60 * hm[1] + hm[2], D)
-         want == IF k = 0 THEN <<0>> ELSE IF k = 1 THEN <<1>> ELSE <<2, NextRunDay(wd, k)>>
+         WantAt(t) == LET w == Weekday(e.zone, t)
+                          kk == NextRunK(w, LocalMin(e.zone, t), 60 * hm[1] + hm[2], D)
+                      IN IF kk = 0 THEN <<0>> ELSE IF kk = 1 THEN <<1>> ELSE <<2, NextRunDay(w, kk)>>
+         want == WantAt(e.now)
          got == DayTerm(e.text)
-     IN [why |-> Clause(got = want, "C13:day-term")
+         \* a call takes time: when the clock moved on while it ran (e.now2: the instant it returned, less than a minute
+         \* later), the text is right if it is the answer for the minute the call began in or for the one it ended in -
+         \* not a mixture of the two
+     IN [why |-> Clause(got = want \/ ("now2" \in DOMAIN e /\ got = WantAt(e.now2)), "C13:day-term")
                  \o Clause(D = {} \/ Len(got) < 2 \/ got[2] \in D, "C13:named-weekday-selected")
                  \* the text is computed FROM the schedule: the caller's day set is the same set after the call
                  \o Clause("after" \notin DOMAIN e \/ SeqToSet(e.after) = D, "C13:day-set-changed-by-the-call"),
